@@ -39,6 +39,11 @@ pub enum Base {
     /// the end the peer acknowledges the oldest publish and the cause follows after `variant`
     /// scheduler rounds, i.e. while the woken waiter may not have run yet
     B3W,
+    /// B2 with a handler that asks for the whole payload at once (`read_all`) and waits for it
+    B2A,
+    /// an exactly-once send whose PUBREC has arrived and whose receipt the application still holds
+    /// when the end comes; it is released only after the connection is gone
+    B3R,
 }
 
 #[derive(Debug, Clone, Copy, PartialEq, Eq)]
@@ -131,12 +136,12 @@ fn inbound_steps(base: Base, role: Role) -> Vec<Vec<u8>> {
     match base {
         Base::B1 | Base::B5 => vec![enc(&publ(1, 11, 8)), enc(&publ(0, 0, 3)), enc(&publ(1, 12, 20))],
         Base::B6 => vec![enc(&publ(1, 61, 5))],
-        Base::B2 | Base::B2D => {
+        Base::B2 | Base::B2D | Base::B2A => {
             let full = enc(&publ(1, 21, 40));
             let cut = full.len() - 25;
             vec![full[..cut].to_vec(), full[cut..cut + 10].to_vec(), full[cut + 10..].to_vec()]
         }
-        Base::B3 | Base::B3C | Base::B3W => vec![],
+        Base::B3 | Base::B3C | Base::B3W | Base::B3R => vec![],
         Base::B7 => {
             if role.is_server() {
                 vec![
@@ -155,6 +160,7 @@ fn inbound_steps(base: Base, role: Role) -> Vec<Vec<u8>> {
 pub fn steps_of(base: Base, role: Role) -> usize {
     match base {
         Base::B3 | Base::B3C | Base::B3W => 6,
+        Base::B3R => 2,
         Base::B6 => 2,
         _ => inbound_steps(base, role).len(),
     }
@@ -184,12 +190,17 @@ pub async fn run_case(case: &Case) -> Outc {
     // handlers
     match case.base {
         Base::B2 => *app.pub_default.borrow_mut() = PubPlan { read: ReadMode::Chunks, gated: true, outcome: Outcome::Ok },
+        Base::B2A => *app.pub_default.borrow_mut() = PubPlan { read: ReadMode::Eager, gated: true, outcome: Outcome::Ok },
         Base::B2D => *app.pub_default.borrow_mut() = PubPlan { read: ReadMode::Detached, gated: true, outcome: Outcome::Ok },
         Base::B4 => *app.pub_default.borrow_mut() = PubPlan { read: ReadMode::Eager, gated: false, outcome: Outcome::Ok },
         _ => *app.pub_default.borrow_mut() = PubPlan { read: ReadMode::Eager, gated: true, outcome: Outcome::Ok },
     }
     if case.base == Base::B5 {
         *app.stop_plan.borrow_mut() = Some(ControlPlan { gated: true, answer: ControlAnswer::None });
+    }
+    if case.variant == 3 && case.base != Base::B3W {
+        // the control service answers the Stop notification with an error of its own
+        *app.stop_plan.borrow_mut() = Some(ControlPlan { gated: false, answer: ControlAnswer::Err });
     }
     if case.base == Base::B7 {
         if role.is_server() {
@@ -207,6 +218,7 @@ pub async fn run_case(case: &Case) -> Outc {
     }
     let sink = c.sink();
     let mut ops: Vec<Op> = Vec::new();
+    let held_receipt = crate::sink::Chan::<crate::sink::ReceiptCmd>::new();
     let inbound = inbound_steps(case.base, role);
     o.inbound_len = inbound.iter().map(Vec::len).sum();
     let total_steps = steps_of(case.base, role);
@@ -240,6 +252,19 @@ pub async fn run_case(case: &Case) -> Outc {
                 c.settle().await;
                 if sink.send_qos1_noblock(&PubSpec::new("o/nb", vec![2; 4])).is_some() {
                     noblock += 1;
+                }
+            }
+            Base::B3R if step == 0 => {
+                let id = next_op_id();
+                let mut op = Op::new(&app, id, "b3r-q2-held", sink.send_qos2(&PubSpec::new("o/q2h", vec![8; 4]), held_receipt.clone(), Rc::new(|_, _| {})));
+                op.start();
+                ops.push(op);
+            }
+            Base::B3R => {
+                // the peer answers PUBREC: the application now holds the receipt
+                let first = app.wire().iter().find_map(|(_, p)| if let R::Publish { pid: Some(id), qos: 2, .. } = p { Some(*id) } else { None });
+                if let Some(id) = first {
+                    c.peer.send(&R::PubRec { pid: id, code: if v5 { Some(0) } else { None }, props: None });
                 }
             }
             Base::B3W => {
@@ -317,7 +342,7 @@ pub async fn run_case(case: &Case) -> Outc {
     let handlers_running_before = app.pubs_running.get();
     o.wr_backpressure = wr_on;
     o.parked_at_cause = ops.iter().filter(|op| !op.is_done()).count();
-    o.reader_waiting = matches!(case.base, Base::B2 | Base::B2D) && handlers_running_before > 0 && app.count(|e| matches!(e, Ev::PubPayload { .. })) == 0;
+    o.reader_waiting = matches!(case.base, Base::B2 | Base::B2D | Base::B2A) && handlers_running_before > 0 && app.count(|e| matches!(e, Ev::PubPayload { .. })) == 0;
 
     // ---- B3W: the peer acknowledges the oldest publish; the cause follows while the waiter that the
     // acknowledgement wakes may not have been polled yet
@@ -447,6 +472,12 @@ pub async fn run_case(case: &Case) -> Outc {
     }
     c.settle().await;
 
+    if case.base == Base::B3R {
+        // only now does the application release the receipt it has been holding
+        held_receipt.push(crate::sink::ReceiptCmd::Release);
+        c.settle().await;
+    }
+
     // -------------------------------------------------------------------- RefTeardown
     let log = app.snapshot();
     let stops = app.stops();
@@ -485,6 +516,9 @@ pub async fn run_case(case: &Case) -> Outc {
                 o.violations.push(("a send / readiness future is still pending after the connection ended".into(), format!("{} — {what}", op.what)));
             }
             Some(SinkRes::ErrDisconnected) | Some(SinkRes::Ready(false)) => {}
+            // B3R: release() is *called* after the connection has gone (it is not a future that
+            // was pending at the end): any prompt error will do, it must not hang or succeed
+            Some(SinkRes::ErrUnexpectedRelease) if case.base == Base::B3R => {}
             // B3W: the acknowledged send may complete at any time; with a cause the endpoint only
             // learns about later, a waiter polled in between may legitimately report success
             Some(r) if r.is_ok() && case.base == Base::B3W && (op.id == ops[0].id || !matches!(case.cause, Cause::LocalClose | Cause::CloseWithReason | Cause::ForceClose)) => {}
@@ -518,7 +552,7 @@ pub async fn run_case(case: &Case) -> Outc {
         if let Ev::PubPayload { bytes, call } = e {
             let streamed = log.iter().any(|(_, e2)| matches!(e2, Ev::PubEnter { call: c2, topic, .. } if c2 == call && topic == "b/t"));
             let sent: usize = 40;
-            if matches!(case.base, Base::B2 | Base::B2D) && streamed && bytes.len() < sent {
+            if matches!(case.base, Base::B2 | Base::B2D | Base::B2A) && streamed && bytes.len() < sent {
                 o.violations.push(("payload reader saw a clean end of a truncated payload".into(), format!("call {call}: {} of {sent} bytes — {what}", bytes.len())));
             }
         }
@@ -569,7 +603,7 @@ pub async fn run_case(case: &Case) -> Outc {
 pub fn cases(quick: bool) -> Vec<Case> {
     let mut v = Vec::new();
     for role in Role::ALL {
-        for base in [Base::B1, Base::B2, Base::B2D, Base::B3, Base::B3C, Base::B4, Base::B5, Base::B6, Base::B7, Base::B3W] {
+        for base in [Base::B1, Base::B2, Base::B2D, Base::B3, Base::B3C, Base::B4, Base::B5, Base::B6, Base::B7, Base::B3W, Base::B2A, Base::B3R] {
             let n = steps_of(base, role);
             for cause in CAUSES {
                 if cause == Cause::CloseWithReason && !role.is_v5() {
@@ -594,11 +628,15 @@ pub fn cases(quick: bool) -> Vec<Case> {
                         cause,
                         Cause::Garbage | Cause::ProtocolViolation | Cause::ProtoHandlerError | Cause::PeerDisconnect | Cause::PublishHandlerError | Cause::PublishHandlerErrorLast | Cause::ProtoDisconnect
                     );
-                    if matches!(base, Base::B2 | Base::B2D) && (step == 1 || step == 2) && needs_inbound {
+                    if matches!(base, Base::B2 | Base::B2D | Base::B2A) && (step == 1 || step == 2) && needs_inbound {
                         continue;
                     }
-                    for variant in 0..3u8 {
-                        if variant > 0 && !matches!(base, Base::B1 | Base::B5 | Base::B6) {
+                    for variant in 0..4u8 {
+                        if (variant == 1 || variant == 2) && !matches!(base, Base::B1 | Base::B5 | Base::B6) {
+                            continue;
+                        }
+                        // variant 3: the control service fails on Stop (not with the slow control service of B5)
+                        if variant == 3 && !matches!(base, Base::B1 | Base::B2 | Base::B3 | Base::B3R | Base::B4) {
                             continue;
                         }
                         v.push(Case { role, base, cause, step, byte_offset: None, variant });
